@@ -46,7 +46,7 @@ def check(ctx):
         ok = any(unparse(e) == "'npartitions' in self._parameters" and pol is False for e, pol in cfg_of(np_).facts(r2))
     ctx.ob("ALG.definitions.npartitions", np_, "npartitions = len(divisions) - 1 unless an explicit npartitions operand exists", ok)
     kd = expr.own_methods["known_divisions"]
-    ok = any(unparse(r.value) == "len(self.divisions) > 0 and self.divisions[0] is not None" for r in returns(kd))
+    ok = (all(unparse(r.value) == "len(self.divisions) > 0 and self.divisions[0] is not None" for r in returns(kd)) and bool(returns(kd)))
     ctx.ob("ALG.definitions.known", kd, "known_divisions = len(divisions) > 0 and divisions[0] is not None", ok)
     # ---------------- FromPandas
     fp = model.klass(IO, "FromPandas").own_methods["_divisions_and_locations"]
